@@ -51,6 +51,26 @@ func c04Profiles(rng *rand.Rand, tier string) []Profile {
 		}
 		ps = append(ps, p)
 	}
+	// failure-injection family (appended: the profiles above keep their random draws), inject.go
+	return append(ps, InjectProfiles(rng, tier)...)
+}
+
+// InjectProfiles: the failure sweeps (every injection kind once at every step kind: apply, sync apply, delete,
+// tie-break) and ordinary histories in which a third of the steps runs with a random failure armed.
+func InjectProfiles(_ *rand.Rand, tier string) []Profile {
+	k := 1
+	if tier == "thorough" {
+		k = 12
+	}
+	var ps []Profile
+	for i := 0; i < k; i++ {
+		for _, sw := range []string{"apply", "sync", "delete", "tie"} {
+			ps = append(ps, Profile{Sweep: sw, TieBreak: sw == "tie", SmallCache: i%3 == 2, TxHeavy: i%2 == 1})
+		}
+		// (no draw from rng here: the profiles are drawn before the first history is recorded)
+		ps = append(ps, Profile{Steps: 10 + (3*i)%8, DeleteBias: 1.2, ForkBias: 0.9, RestartBias: 0.06, Inject: 0.3})
+		ps = append(ps, Profile{Steps: 10 + (5*i+3)%8, DeleteBias: 1.0, ForkBias: 2.5, TieBreak: true, Inject: 0.3})
+	}
 	return ps
 }
 
@@ -171,6 +191,9 @@ func (p Prop) Classify(c corr.Case, out []string) string {
 		case "pv":
 			has["pv-"+w[0]] = true
 		}
+		if strings.Contains(c.Ops[i], " inj=") {
+			has["inject"] = true
+		}
 		if i > 0 && (op == "sctx" || op == "delat" || op == "till") && strings.HasPrefix(c.Ops[i-1], "restart") {
 			has["restart-guard"] = true
 		}
@@ -192,7 +215,7 @@ func (p Prop) Classify(c corr.Case, out []string) string {
 	}
 	var keys []string
 	for _, k := range []string{"tieBreakApplied", "tieBreakReverted", "doubleForging", "identical", "discard", "wouldSync", "err", "del-refused", "delat-err", "restart", "restart-guard", "sctx", "till", "twin", "pv-ok", "pv-sync-fin", "gap",
-		"restartg-genesis-err", "restartg-genesis-ok", "restartg-cfg", "restartg-chainid"} {
+		"restartg-genesis-err", "restartg-genesis-ok", "restartg-cfg", "restartg-chainid", "inject"} {
 		if has[k] {
 			keys = append(keys, k)
 		}
